@@ -124,6 +124,8 @@ pub fn unspell(w: &str) -> String {
 pub fn render_tok(t: &str) -> String {
     if t == "LC" {
         "\\\n".to_string()
+    } else if t == "NL" {
+        "\n".to_string()
     } else if let Some(r) = t.strip_prefix("BS") {
         format!("\\{}", spell(r))
     } else if let Some(r) = t.strip_prefix('\'').and_then(|r| r.strip_suffix('\'')) {
